@@ -153,6 +153,10 @@ def random_plan(seed, idx):
                 k3 = r.choice(KEYS)  # a second SD message in the same datagram
                 second = [["offer", k3[0], k3[1], k3[2], k3[3], r.choice([0, 1, 3, INF_TTL])]]
             b.offer(p, key, r.choice([1, 1, 2, 3, INF_TTL]), ch, extra, second=second, opts=opts)
+            if second is None and r.random() < 0.12:
+                # a peer that wrapped its session counter long ago (reboot flag clear): its datagrams may be duplicated or
+                # reordered (an equal or lower id follows) and the counter may wrap again (0xFFFF -> 1) - no reboot any of it
+                b.ops[-1]["sess"] = [0, r.choice([1, 2, 2, 3, 5, 0xFFFF, 0xFFFE])]
         elif k < 0.50:
             b.offer(p, key, 0, ch, opts=opts)
         elif k < 0.65:
